@@ -8,19 +8,21 @@ TraceInit == l = 1 /\ failed = FALSE /\ InitWith(Blank)
 TReset == Ev("reset") /\ ResetTo(Cur.sc) /\ Consume /\ failed' = FALSE
 
 \* a Send returned: the i-th result must be one the oracle allows
-Res == IF Cur.res = "other:13" THEN "internal" ELSE Cur.res
+Res == IF Handler(sc) THEN (IF Cur.res = "ok" THEN "ok" ELSE "fail")
+       ELSE IF Cur.res = "other:13" THEN "internal" ELSE Cur.res
 TSend == /\ Ev("ret") /\ Cur.op = "send"
          /\ si <= Len(sc.sizes)
          /\ Res \in SendOutcomes(sc, si)
          /\ (Res = "ctx" => Cur.code = CtxCode(sc))
+         /\ (Res = "fail" => Cur.code \in 1..16)
          /\ results' = Append(results, Res) /\ si' = si + 1
          /\ UNCHANGED <<sc, consumed, struck, part, final>>
 \* other connection-level operations (CloseRequest, Receive, CloseResponse) are judged through the final result
 TOther == /\ Ev("ret") /\ Cur.op # "send" /\ UNCHANGED vars
 TCallEv == /\ Ev("call") /\ UNCHANGED vars
 TFinal == /\ Ev("final") /\ final = 0
-          /\ ~Cur.ok /\ Cur.code \in FinalCodes(sc)
-          /\ final' = Cur.code
+          /\ IF Cur.ok THEN 0 \in FinalCodes(sc) ELSE Cur.code \in (FinalCodes(sc) \ {0})
+          /\ final' = IF Cur.ok THEN -1 ELSE Cur.code
           /\ UNCHANGED <<sc, consumed, struck, si, part, results>>
 
 Normal == TReset \/ ((TSend \/ TOther \/ TCallEv \/ TFinal) /\ Consume /\ UNCHANGED failed)
